@@ -60,6 +60,12 @@ func DecodeState(buf []byte) (out *State, err error) {
 
 	// Decode the state, while decoding it can only be volatile (as per use-case)
 	decoded := make(map[uint8]crdt.Volatile)
+	// The decoded length is allocated upfront and is provided by the remote peer, make
+	// sure it is something a snappy encoder could have produced out of that many bytes.
+	if n, lenErr := snappy.DecodedLen(buf); lenErr != nil || n > 32*len(buf)+1024 {
+		return NewState(""), snappy.ErrCorrupt
+	}
+
 	if buf, err = snappy.Decode(nil, buf); err == nil {
 		err = binary.Unmarshal(buf, &decoded)
 	}
